@@ -59,10 +59,42 @@ def node_of(s, ref):
     return -1
 
 
+DEGRADED = {"mux_order_from_save": 0}
+
+
+def _mux_order_public(s):
+    """declared input order of every mux from the public save() document ({mux name: [input names]}) - used only when
+    the private parent-order registry is not where the anchors say it is"""
+    import json
+    import os
+    import tempfile
+    fd, path = tempfile.mkstemp(suffix=".json", prefix="sl_pj_")
+    os.close(fd)
+    try:
+        s.save(path)
+        with open(path) as f:
+            doc = json.load(f)
+    finally:
+        try:
+            os.unlink(path)
+        except OSError:
+            pass
+    return {k: list(v["parents"]) for k, v in doc.items() if isinstance(v, dict) and "parents" in v}
+
+
 def project(s):
     g = s._g
     at = g.attrs
     anom = []
+    pub_order = None
+    if "pnames" not in at:
+        # the parent-order registry is not there (an internal re-organisation): the declared order is taken from the
+        # public save() document instead - reduced coverage (C14.WF.ParentRefs cannot be judged), recorded, never an alarm
+        DEGRADED["mux_order_from_save"] += 1
+        try:
+            pub_order = _mux_order_public(s)
+        except Exception:
+            pub_order = {}
     nodes = at["nodes"]
     idxs = list(g.node_indices())
     seen = {}
@@ -89,7 +121,16 @@ def project(s):
                 anom.append(["aux", reg + "-missing", name])
         preds = list(g.predecessor_indices(idx))
         pn = [g[p]._params["name"] for p in preds]
-        if len(preds) > 1:
+        if len(preds) > 1 and pub_order is not None:
+            want = pub_order.get(name)
+            if isinstance(want, list) and sorted(want) == sorted(pn):
+                pn = list(want)
+            else:
+                pn = sorted(pn)
+                anom.append(["pnames", "stale-parent-order", name])
+        elif pub_order is not None:
+            pass
+        elif len(preds) > 1:
             refs = at["pnames"].get(idx)
             ok = False
             if isinstance(refs, list) and len(refs) == len(preds):
